@@ -90,6 +90,12 @@ fn scenario(rec: &mut Rec, ctx: &Ctx, idx: u64, rng: &mut ChaCha20Rng) {
       let aux: Option<Vec<u8>> = match rng.gen_range(0..8) {
         0 => None,
         1 => Some(vec![]),
+        2 => {
+          // a unique id padded over several cipher blocks
+          let mut v = format!("client-{}-{}-", idx, client_id).into_bytes();
+          v.extend(rand_bytes_in(rng, 150..500));
+          Some(v)
+        }
         _ => Some(format!("client-{}-{}", idx, client_id).into_bytes()),
       };
       let mg = MessageGenerator::new(SingleMeasurement::new(&m), t, epoch.as_bytes());
